@@ -415,7 +415,8 @@ RULES = [
 
 LEVEL_TEXT = ("Static shape clauses on MIR: who may call Socket::send / Device::write and under which dominating success edges "
               "(seal before send, open before type byte, DATA arm before interface write), the plain-mode flag is set only on mutual consent, "
-              "open_in_place is checked before the replay counter moves, and the sender/receiver nonce-half marker tables are complementary.")
+              "open_in_place is checked before the replay counter moves, and the sender/receiver nonce-half marker tables are complementary."
+              " Since round 3: the handshake's own payload (pong / peng carrying the node information) is built only in the activation that has just negotiated the cipher.")
 LEVEL_NOTE = ("Decides C02.R1-R6 (necessary conditions). Not decided: byte-identical delivery, absence of cleartext on the wire, AEAD tamper "
               "rejection (ring contract), rejection across connections (distinct ECDH keys).")
 TECHNIQUE = "MIR who-may-call + dominance by success edges, flag-specialised regions, constant decision tables (sibling agreement)"
